@@ -74,6 +74,16 @@ class Lin:
 
     __rmul__ = __mul__
 
+    def __floordiv__(self, d):
+        if isinstance(d, int) and not isinstance(d, bool) and d > 0 and all(v % d == 0 for v in self.c.values()):
+            return Lin({s: v // d for s, v in self.c.items()}, self.k // d)
+        raise TypeError(f"floor division of {self!r} by {d!r} is not linear")
+
+    def __mod__(self, d):
+        if isinstance(d, int) and not isinstance(d, bool) and d > 0 and all(v % d == 0 for v in self.c.values()):
+            return self.k % d
+        raise TypeError(f"{self!r} modulo {d!r} is not decided by the representation")
+
     def __int__(self):
         if self.is_const():
             return self.k
